@@ -468,6 +468,42 @@ def run_case(ctx, rng, npr, case, P, terms, cases, tr_terms, tr_cases):
                 ctx.tag(("tr", case["X"].tobytes(), Y.tobytes()), ["transform_far_row"])
 
 
+def weak_case(rng, npr, r, n_epochs):
+    """a tight blob plus one or two moderately far outliers, n_neighbors = n - 1 (everybody is everybody's neighbour) and a small
+    set_op_mix_ratio: the outliers keep edges in graph_, all far weaker than w_max / n_epochs (the layout stage prunes them
+    from its private copy), so they are NOT isolated and must get finite rows"""
+    n0 = rng.randint(8, 12); nout = rng.choice([1, 2])
+    X = npr.normal(size=(n0 + nout, 2)) * 0.3
+    ang = rng.uniform(0, 2 * math.pi)
+    for o in range(nout):     # on opposite sides of the blob: never each other's nearest neighbour
+        X[n0 + o] = np.array([math.cos(ang + o * math.pi), math.sin(ang + o * math.pi)]) * rng.uniform(8.0, 14.0)
+    X = X.astype(np.float32)
+    D = pdist64("euclidean", X); np.fill_diagonal(D, 0.0)
+    return dict(kind="euclidean", metric="euclidean", base="euclidean", X=X, D=D, labels=[0] * n0 + [1] * nout, k=n0 + nout - 1,
+                r=r, init=rng.choice(["spectral", "random"]), lc=1, n_epochs=n_epochs, seed=rng.randint(0, 10 ** 6), exact_t=False, q="weak", t=None)
+
+
+def run_weak_cases(ctx, rng, npr):
+    for r, ne in ([(0.0, 30), (0.001, 200), (0.0, None)] if ctx.tier == "quick" else [(0.0, 30), (0.001, 200), (0.0, None), (0.0005, None), (0.0, 12), (0.002, 500)] * 3):
+        case = weak_case(rng, npr, r, ne)
+        desc = case_desc(case)
+        try:
+            m = do_fit(case)
+            G = m.graph_.tocsr(); G.sum_duplicates()
+            emb = np.asarray(m.embedding_); dv = disconnected_vertices(m)
+        except Exception as e:
+            ctx.fail("UMAP.fit:raises", "%s: %s" % (type(e).__name__, str(e)[:160]), desc); continue
+        iso, _ = oracle_fit(ctx, case, G, emb, dv)
+        eff = ne if ne is not None else 500
+        wmax = G.data.max() if G.nnz else 0.0
+        rowmax = np.asarray(G.max(axis=1).todense()).ravel()
+        weak_only = (~iso) & (rowmax < wmax / eff)
+        ctx.tag(("weak", case["X"].tobytes(), r, ne), ["r_small"] + (["vertex_with_only_weak_edges"] if weak_only.any() else []))
+        ctx.count("weak_attached_case")
+        ctx.extra.setdefault("weak_cases", []).append(dict(r=r, n_epochs=ne, isolated=np.flatnonzero(iso).tolist(), strongest_edge_of_last_rows=[float(v) for v in rowmax[-2:]],
+                                                          w_max=float(wmax), weak_only=np.flatnonzero(weak_only).tolist()))
+
+
 def run(ctx):
     T0 = time.time(); ctx.check_proofs(["prop/P_C04.v"]); ctx.extra["timing_s"] = {"proofs": round(time.time() - T0, 1)}
     P = srcparams.module_constants("umap/umap_.py", {"SMOOTH_K_TOLERANCE", "MIN_K_DIST_SCALE"})
@@ -491,6 +527,7 @@ def run(ctx):
     for kind, q in plan:
         case = make_case(rng, npr, kind, q)
         run_case(ctx, rng, npr, case, P, terms, cases, tr_terms, tr_cases)
+    run_weak_cases(ctx, rng, npr)
     ctx.extra["timing_s"]["implementation_and_oracle"] = round(time.time() - T0 - ctx.extra["timing_s"]["proofs"], 1)
     hdr = ("From Coq Require Import List ZArith PrimFloat. From UV Require Import Num FNum M_knn M_disconnect V_disconnect.\n"
            "Import ListNotations. Open Scope float_scope.\n")
